@@ -223,11 +223,40 @@ fn draw_msg(ctx: &mut Ctx, k: &BKnobs, enc: &RefChunkEncoder, csid: u32, multi_b
     };
     let l = draw_len(ctx, k, enc.chunk_size, multi_bias);
     let seed = ctx.ch.sub_seed("bytes.seed");
+    // (not an Abort while several messages are in flight: a sender that aborts a message does
+    // not go on sending its chunks, which the multiplexing generator would do)
+    let payload = if (2..=6).contains(&type_id) && !(multi_bias && type_id == 2) && ctx.ch.chance("op.arg.semantic", 1, 2) {
+        // well-formed protocol control bodies with meaningful values: in particular an Abort
+        // message naming a chunk stream that is in use (it must not disturb later messages:
+        // nothing is in progress there when messages are sent one after another)
+        let used = enc.used_csids();
+        let v = if !used.is_empty() && ctx.ch.chance("op.arg.ctlused", 2, 3) {
+            used[ctx.ch.draw("op.arg.ctlv", used.len() as u64) as usize]
+        } else {
+            *ctx.ch.pick("op.arg.ctlv", &[0u32, 1, 2, 3, 0x7FFF_FFFF, 0xFFFF_FFFF])
+        };
+        ctx.probe("b.semantic_control_body");
+        match type_id {
+            4 => {
+                let mut b = vec![0u8, *ctx.ch.pick("op.arg.evt", &[0u8, 1, 2, 4, 6, 7])];
+                b.extend_from_slice(&v.to_be_bytes());
+                b
+            }
+            6 => {
+                let mut b = v.to_be_bytes().to_vec();
+                b.push(ctx.ch.draw("op.arg.bwlimit", 3) as u8);
+                b
+            }
+            _ => v.to_be_bytes().to_vec(),
+        }
+    } else {
+        expand_bytes(seed, l)
+    };
     RefMsg {
         type_id,
         msid,
         ts,
-        payload: expand_bytes(seed, l),
+        payload,
     }
 }
 
@@ -434,8 +463,51 @@ fn link_for(ctx: &mut Ctx, pieces: &[Vec<u8>], mode: SegMode) -> Link {
     link
 }
 
+/// Rare run: thousands of tiny messages on distinct chunk stream ids (every id from 2 to 65599
+/// is legal), then compressed headers on ids used long ago.
+fn gen_csid_sweep(ctx: &mut Ctx) -> Stream {
+    let mut enc = RefChunkEncoder::new();
+    let mut st = Stream { pieces: Vec::new(), completed: Vec::new(), interleaved_switches: 0 };
+    let n = 4097 + ctx.ch.draw("op.count", 2500) as u32;
+    let start = 2 + ctx.ch.draw("op.arg.csid", 200) as u32;
+    let stride = 1 + ctx.ch.draw("op.arg.stride", 9) as u32;
+    let mut out = Vec::new();
+    for i in 0..n {
+        let csid = start + i * stride;
+        if csid > 65599 {
+            break;
+        }
+        let m = RefMsg { type_id: 8, msid: 1, ts: i, payload: vec![i as u8] };
+        enc.encode_message(&mut out, csid, &m, 0);
+        st.completed.push(m);
+    }
+    st.pieces.push(std::mem::take(&mut out));
+    // revisit ids used long ago with compressed headers
+    let revisit = 3 + ctx.ch.draw("op.count", 20) as u32;
+    for j in 0..revisit {
+        let csid = start + ctx.ch.draw("op.arg.csid", n.min((65599 - start) / stride) as u64) as u32 * stride;
+        let prev = enc.prev(csid).unwrap();
+        let m = RefMsg { type_id: 8, msid: 1, ts: prev.0.wrapping_add(10 + j), payload: vec![j as u8] };
+        let f = enc.best_format(csid, &m);
+        let mut o = Vec::new();
+        enc.encode_message(&mut o, csid, &m, f);
+        st.pieces.push(o);
+        st.completed.push(m);
+    }
+    ctx.probe("b.csid_sweep_past_4096");
+    st
+}
+
 pub fn run_c06(ctx: &mut Ctx) -> RunResult {
     ctx.world("B");
+    if ctx.ch.chance("cfg.csidsweep", 1, 400) {
+        let seg = Link::draw_mode(ctx);
+        let st = gen_csid_sweep(ctx);
+        ctx.nontrivial = true;
+        let mut link = link_for(ctx, &st.pieces, seg);
+        link.small_budget = 300;
+        return receive_and_compare(ctx, &mut link, &st.completed, "foreign-decode", 1);
+    }
     let k = BKnobs::draw(ctx, 1);
     let seg = Link::draw_mode(ctx);
     let st = gen_stream(ctx, &k, if ctx.tier_thorough { 30 } else { 10 });
